@@ -20,6 +20,7 @@ import (
 	"strings"
 
 	"golang.org/x/tools/go/packages"
+	"golang.org/x/tools/go/ssa"
 )
 
 const autocliAPIPath = "cosmossdk.io/api/cosmos/autocli/v1"
@@ -127,6 +128,8 @@ func checkC20(w *World, r *Report) {
 	r.Rule("CLI-COVER", "every Msg/Query method has a command (not skipped unless authority gated)", 15)
 	r.Rule("CLI-UNIQUE", "command names and aliases of one service are pairwise distinct", 2)
 	r.Rule("APP-ORDER", "module wired into app_config begin/end/genesis order and linked", 5)
+	r.Rule("CFG-START", "the default node configuration passes the server's start-up validation", 1)
+	r.Rule("PROTO-AMINO", "amino JSON encoding options fit the field they annotate (responses can be rendered)", 12)
 
 	mod := w.Repo[modulePath]
 	info := mod.TypesInfo
@@ -435,6 +438,60 @@ func checkC20(w *World, r *Report) {
 	}
 
 	checkAppOrder(w, r)
+	checkCfgStart(w, r)
+	checkProtoAmino(w, r)
+}
+
+// checkCfgStart: server.Start validates the app config (cosmos-sdk v0.50.8 server/config/config.go Config.ValidateBasic:
+// an empty BaseConfig.MinGasPrices is an error "set min gas price in app.toml or flag or env variable"). The default
+// app.toml is written from the config the command package builds from serverconfig.DefaultConfig(), whose MinGasPrices
+// is "". The binary therefore starts with default settings only if that package assigns a non-empty constant.
+func checkCfgStart(w *World, r *Report) {
+	const srvCfgPath = "github.com/cosmos/cosmos-sdk/server/config"
+	usesDefault, where := false, cmdPath
+	var assigned []string
+	for _, fn := range w.Funcs {
+		if p := pkgOf(fn); p == nil || p.Path() != cmdPath {
+			continue
+		}
+		for _, b := range fn.Blocks {
+			for _, in := range b.Instrs {
+				switch x := in.(type) {
+				case ssa.CallInstruction:
+					if callKey(x.Common()) == srvCfgPath+".DefaultConfig" {
+						usesDefault, where = true, w.instrPos(in)
+					}
+				case *ssa.Store:
+					fa, ok := x.Addr.(*ssa.FieldAddr)
+					if !ok || !isNamed(fa.X.Type(), srvCfgPath, "BaseConfig") && !isNamed(fa.X.Type(), srvCfgPath, "Config") {
+						continue
+					}
+					st := structOf(fa.X.Type())
+					if st == nil || st.Field(fa.Field).Name() != "MinGasPrices" {
+						continue
+					}
+					if c, ok := x.Val.(*ssa.Const); ok && c.Value != nil {
+						assigned = append(assigned, constKey(c))
+					} else {
+						assigned = append(assigned, "<computed>")
+					}
+				}
+			}
+		}
+	}
+	if !usesDefault {
+		r.Pass("CFG-START", "min-gas-prices", where, "the command package does not build its app config from the SDK default (nothing to check)")
+		return
+	}
+	ok := false
+	for _, a := range assigned {
+		if a != `""` {
+			ok = true
+		}
+	}
+	r.Check(ok, "CFG-START", "min-gas-prices", where,
+		"the default app config assigns a non-empty minimum gas price, so `start` with default settings passes Config.ValidateBasic",
+		fmt.Sprintf("the app config is serverconfig.DefaultConfig() with MinGasPrices left empty (assignments found: %v): `fundraisingd init` writes minimum-gas-prices = \"\" and `fundraisingd start` fails with \"set min gas price in app.toml or flag or env variable\"", assigned))
 }
 
 // kebab converts a method name to autocli's default command name.
